@@ -31,6 +31,9 @@ EvqNums(q) == [i \in 1..Len(q) |-> q[i].e]
 (* fields the standard leaves free are bound to what the implementation chose *)
 FreeOf(list) == IF Len(list) >= 1 /\ Len(list[1].f) = 2 THEN list[1].f ELSE <<0, 0>>
 
+(* when the reassembly state is unknown DT-2/AR-6 may indicate nothing or one message *)
+MsgIndOf(list) == IF Len(list) = 1 /\ list[1].k = "MSG" THEN list ELSE <<>>
+
 StepInv ==   \* name of the first property that fails in the step just taken, "" if none
   IF ~TypeOK' THEN "TypeOK"
   ELSE IF ~ArtimExactly' THEN "ArtimExactly"
@@ -45,7 +48,7 @@ StepInv ==   \* name of the first property that fails in the step just taken, ""
 TrIter ==
   /\ IsEvent("Iter")
   /\ \E inv \in BOOLEAN, fail \in BOOLEAN :
-       /\ Iterate(Ev.rcv, SrcOfEvt(Ev.newevt), FreeOf(Ev.wire), FreeOf(Ev.ind), inv, fail)
+       /\ Iterate(Ev.rcv, SrcOfEvt(Ev.newevt), FreeOf(Ev.wire), FreeOf(Ev.ind), inv, fail, MsgIndOf(Ev.ind))
        \* a grey frame taken as invalid must show up as Evt19, otherwise as its type's event
        /\ (Ev.newevt # 0 /\ SrcOfEvt(Ev.newevt) = "frame") =>
               Ev.newevt = (IF Head(stream).grey /\ inv THEN 19 ELSE EvtOfPdu(Head(stream).k))
@@ -62,7 +65,7 @@ TrIter ==
   /\ out'.ind = Ev.ind
   /\ out'.closed = Ev.closed
 
-TrPeerSend == IsEvent("PeerSend") /\ PeerSend(Ev.frames)
+TrPeerSend == IsEvent("PeerSend") /\ PeerSend(Ev.frames, Ev.n)
 TrArrive   == IsEvent("Arrive") /\ Arrive(Ev.n)
 TrPeerFin  == IsEvent("PeerFin") /\ PeerFin
 TrPeerReset == IsEvent("PeerReset") /\ ~peerFin /\ peerFin' = TRUE /\ transit' = 0 /\ rx' = 0 /\ out' = NoOut
@@ -72,8 +75,12 @@ Idle       == out' = NoOut /\ UNCHANGED <<isReq, st, sock, stream, transit, rx, 
 TrTick     == IsEvent("Tick") /\ (IF artim = "run" THEN Tick ELSE Idle)
 TrTock     == IsEvent("Tock") /\ Idle      \* time advances without reaching the ARTIM limit
 
+(* the scenario is over: where the property demands it, the provider must be home *)
+Home == st = 1 /\ sock = "none" /\ user # "assoc" /\ artim = "off" /\ evq = <<>>
+TrEnd == IsEvent("End") /\ (Ev.home => Home) /\ Idle
+
 TraceNext ==
-  /\ (TrIter \/ TrPeerSend \/ TrArrive \/ TrPeerFin \/ TrPeerReset \/ TrUserPut \/ TrTick \/ TrTock)
+  /\ (TrEnd \/ TrIter \/ TrPeerSend \/ TrArrive \/ TrPeerFin \/ TrPeerReset \/ TrUserPut \/ TrTick \/ TrTock)
   /\ l' = l + 1 /\ tid' = tid
   /\ bad' = (IF bad # "" THEN bad ELSE StepInv)
   /\ IF TLCGet(tid).reached < l
